@@ -17,7 +17,7 @@ from .terms import (EngineError, PyExc, N, sadd, ssub, smul, site, sand, sor, sl
 
 # =============================================================================================== bounded arrays
 class BArr:
-    __slots__ = ('a', 'dtype', 'origin')
+    __slots__ = ('a', 'dtype', 'origin', 'names')
 
     def __init__(self, a, dtype, origin='fresh'):
         if not isinstance(a, np.ndarray) or a.dtype != object:
@@ -25,6 +25,7 @@ class BArr:
         self.a = a
         self.dtype = dtype
         self.origin = origin
+        self.names = None            # field names of a structured array (np.genfromtxt(names=True))
 
     @property
     def shape(self):
